@@ -115,81 +115,85 @@ def run(chk, only_solver_agreement=False):
                     if (ti + ci) % 3 == 1:
                         kopts.append(("dense-pred", dk[ci % len(dk)][1]))
                     for kopt, k2 in kopts:
-                        nkind = ["default", "scalar", "vector", "banded", "dense"][(ti + ci + len(kopt)) % 5]
                         pk = kern if k2 is None else k2
-                        Xt = X if xt is None else jnp.asarray(xt)
-                        xtn = x if xt is None else xt
-                        nt = len(xtn)
-                        kw, Nstar, Nscoq = pred_noise(rng, nt, nkind)
-                        Ks = np.asarray(pk(X, Xt))
-                        Kss = np.asarray(pk(Xt, Xt))
-                        mut = mfun(xtn)
-                        want_mean = Ks.T @ alpha2 + (mut if inc else 0.0)
-                        want_cov = Kss + Nstar - Ks.T @ np.linalg.solve(S, Ks)
-                        res = {}
-                        for sname, scls in solvers:
-                            if sname == "quasisep" and xt is None and isinstance(pk, Quasisep) and nkind == "dense":
-                                continue   # documented: Dense noise cannot be used with the QuasisepSolver (raises NotImplementedError)
-                            gp = gps[sname]
-                            info = dict(kernel=kname, noise=nname, mean=mname, n=n, test=tname, include_mean=inc,
-                                        pred_kernel=kopt, pred_noise=nkind, solver=sname, x=x.tolist(), y=y.tolist(),
-                                        xt=None if xt is None else xt.tolist())
-                            hist[f"{sname}/{tname}"] = hist.get(f"{sname}/{tname}", 0) + 1
-                            try:
-                                cond = gp.condition(jnp.asarray(y), None if xt is None else Xt, include_mean=inc, kernel=k2, **kw).gp
-                                loc, var = np.asarray(cond.loc), np.asarray(cond.variance)
-                                cov = np.asarray(cond.covariance)
-                            except Exception as e:  # noqa: BLE001
-                                oracle_bad.append(dict(info, op="condition", observed=f"raised {type(e).__name__}: {str(e)[:80]}",
-                                                       expected="a process"))
-                                continue
-                            res[sname] = (loc, var, cov)
-                            for op, got, want in [("loc", loc, want_mean), ("covariance", cov, want_cov), ("variance", var, np.diag(want_cov))]:
-                                ok, dv = close(got, want, 1e-8)
-                                if not ok:
-                                    oracle_bad.append(dict(info, op=op, expected=np.asarray(want).tolist(), observed=np.asarray(got).tolist()))
-                            if nkind == "default":   # predict() has no noise argument: it corresponds to the default jitter
-                                pm, pv = gp.predict(jnp.asarray(y), None if xt is None else Xt, kernel=k2, include_mean=inc, return_var=True)
-                                pm2, pc = gp.predict(jnp.asarray(y), None if xt is None else Xt, kernel=k2, include_mean=inc, return_cov=True)
-                                pm3 = gp.predict(jnp.asarray(y), None if xt is None else Xt, kernel=k2, include_mean=inc)
-                                for op, got, want in [("predict.mean", pm, want_mean), ("predict.var", pv, np.diag(want_cov)),
-                                                      ("predict.cov", pc, want_cov), ("predict.mean2", pm2, want_mean), ("predict.mean3", pm3, want_mean)]:
-                                    ok, dv = close(np.asarray(got), want, 1e-8)
+                        nkinds = [["default", "scalar", "vector", "banded", "dense"][(ti + ci + len(kopt)) % 5]]
+                        if xt is None and fam == "qs" and isinstance(pk, Quasisep):
+                            # the quasiseparable solver's structured branch: every predictive-noise kind, in every tier
+                            nkinds = ["default", "scalar", "vector", "banded"] + [k for k in nkinds if k == "dense"]
+                        for nkind in nkinds:
+                            Xt = X if xt is None else jnp.asarray(xt)
+                            xtn = x if xt is None else xt
+                            nt = len(xtn)
+                            kw, Nstar, Nscoq = pred_noise(rng, nt, nkind)
+                            Ks = np.asarray(pk(X, Xt))
+                            Kss = np.asarray(pk(Xt, Xt))
+                            mut = mfun(xtn)
+                            want_mean = Ks.T @ alpha2 + (mut if inc else 0.0)
+                            want_cov = Kss + Nstar - Ks.T @ np.linalg.solve(S, Ks)
+                            res = {}
+                            for sname, scls in solvers:
+                                if sname == "quasisep" and xt is None and isinstance(pk, Quasisep) and nkind == "dense":
+                                    continue   # documented: Dense noise cannot be used with the QuasisepSolver (raises NotImplementedError)
+                                gp = gps[sname]
+                                info = dict(kernel=kname, noise=nname, mean=mname, n=n, test=tname, include_mean=inc,
+                                            pred_kernel=kopt, pred_noise=nkind, solver=sname, x=x.tolist(), y=y.tolist(),
+                                            xt=None if xt is None else xt.tolist())
+                                hist[f"{sname}/{tname}"] = hist.get(f"{sname}/{tname}", 0) + 1
+                                try:
+                                    cond = gp.condition(jnp.asarray(y), None if xt is None else Xt, include_mean=inc, kernel=k2, **kw).gp
+                                    loc, var = np.asarray(cond.loc), np.asarray(cond.variance)
+                                    cov = np.asarray(cond.covariance)
+                                except Exception as e:  # noqa: BLE001
+                                    oracle_bad.append(dict(info, op="condition", observed=f"raised {type(e).__name__}: {str(e)[:80]}",
+                                                           expected="a process"))
+                                    continue
+                                res[sname] = (loc, var, cov)
+                                for op, got, want in [("loc", loc, want_mean), ("covariance", cov, want_cov), ("variance", var, np.diag(want_cov))]:
+                                    ok, dv = close(got, want, 1e-8)
                                     if not ok:
                                         oracle_bad.append(dict(info, op=op, expected=np.asarray(want).tolist(), observed=np.asarray(got).tolist()))
-                            # ---- model expression for this configuration
-                            if xt is None and k2 is None:
-                                path, Kcross = "FastPath", np.zeros((0, 0))
-                            elif xt is None:
-                                path, Kcross = "KernelPathSelf", Ks.T
-                            else:
-                                path, Kcross = "NewInputs", Ks.T
-                            incb = "true" if inc else "false"
-                            if sname == "direct":
-                                e = (f"direct_cond {n} {nt} {cvec(np.asarray(kern(X)))} {cmat(Kxx)} {Ncoq} {cvec(mu)} {cvec(y)} {path} {incb} "
-                                     f"{cmat(Kcross)} {cvec(mut)} {cmat(Ks)} {cmat(Kss)} {Nscoq}")
-                                exprs.append(e)
-                                expect.append((info, np.concatenate([loc, cov.ravel()])))
-                            else:
-                                Kq = gpcases.symm_coq(kern.to_symm_qsm(X))
-                                if xt is None and isinstance(pk, Quasisep) and nkind != "dense":
-                                    Mk = gpcases.symm_coq(pk.to_symm_qsm(X))
-                                    e = f"qs_cond_qsm {n} {Kq} {Ncoq} {cvec(mu)} {cvec(y)} {path} {incb} {cmat(Kcross)} {Mk} {Nscoq}"
+                                if nkind == "default":   # predict() has no noise argument: it corresponds to the default jitter
+                                    pm, pv = gp.predict(jnp.asarray(y), None if xt is None else Xt, kernel=k2, include_mean=inc, return_var=True)
+                                    pm2, pc = gp.predict(jnp.asarray(y), None if xt is None else Xt, kernel=k2, include_mean=inc, return_cov=True)
+                                    pm3 = gp.predict(jnp.asarray(y), None if xt is None else Xt, kernel=k2, include_mean=inc)
+                                    for op, got, want in [("predict.mean", pm, want_mean), ("predict.var", pv, np.diag(want_cov)),
+                                                          ("predict.cov", pc, want_cov), ("predict.mean2", pm2, want_mean), ("predict.mean3", pm3, want_mean)]:
+                                        ok, dv = close(np.asarray(got), want, 1e-8)
+                                        if not ok:
+                                            oracle_bad.append(dict(info, op=op, expected=np.asarray(want).tolist(), observed=np.asarray(got).tolist()))
+                                # ---- model expression for this configuration
+                                if xt is None and k2 is None:
+                                    path, Kcross = "FastPath", np.zeros((0, 0))
+                                elif xt is None:
+                                    path, Kcross = "KernelPathSelf", Ks.T
+                                else:
+                                    path, Kcross = "NewInputs", Ks.T
+                                incb = "true" if inc else "false"
+                                if sname == "direct":
+                                    e = (f"direct_cond {n} {nt} {cvec(np.asarray(kern(X)))} {cmat(Kxx)} {Ncoq} {cvec(mu)} {cvec(y)} {path} {incb} "
+                                         f"{cmat(Kcross)} {cvec(mut)} {cmat(Ks)} {cmat(Kss)} {Nscoq}")
                                     exprs.append(e)
-                                    expect.append((dict(info, branch="qsm"), np.concatenate([loc, cov.ravel()]), True))
-                                elif nkind != "dense" or xt is not None or not isinstance(pk, Quasisep):
-                                    e = (f"qs_cond_dense {n} {nt} {Kq} {Ncoq} {cvec(mu)} {cvec(y)} {path} {incb} {cmat(Kcross)} {cvec(mut)} "
-                                         f"{cmat(Ks)} {cmat(Kss)} {Nscoq}")
-                                    exprs.append(e)
-                                    expect.append((dict(info, branch="dense"), np.concatenate([loc, cov.ravel()])))
-                            distinct.add((sname, tname, inc, kopt, nkind, kname))
-                        if len(res) == 2:   # C03: both solvers give the same conditional process
-                            for op, a, b in zip(("loc", "variance", "covariance"), res["direct"], res["quasisep"]):
-                                ok, dv = close(b, a, 1e-8)
-                                if not ok:
-                                    oracle_bad.append(dict(op="solver agreement: " + op, kernel=kname, test=tname, include_mean=inc,
-                                                           pred_kernel=kopt, pred_noise=nkind, expected=np.asarray(a).tolist(),
-                                                           observed=np.asarray(b).tolist(), x=x.tolist(), y=y.tolist()))
+                                    expect.append((info, np.concatenate([loc, cov.ravel()])))
+                                else:
+                                    Kq = gpcases.symm_coq(kern.to_symm_qsm(X))
+                                    if xt is None and isinstance(pk, Quasisep) and nkind != "dense":
+                                        Mk = gpcases.symm_coq(pk.to_symm_qsm(X))
+                                        e = f"qs_cond_qsm {n} {Kq} {Ncoq} {cvec(mu)} {cvec(y)} {path} {incb} {cmat(Kcross)} {Mk} {Nscoq}"
+                                        exprs.append(e)
+                                        expect.append((dict(info, branch="qsm"), np.concatenate([loc, cov.ravel()]), True))
+                                    elif nkind != "dense" or xt is not None or not isinstance(pk, Quasisep):
+                                        e = (f"qs_cond_dense {n} {nt} {Kq} {Ncoq} {cvec(mu)} {cvec(y)} {path} {incb} {cmat(Kcross)} {cvec(mut)} "
+                                             f"{cmat(Ks)} {cmat(Kss)} {Nscoq}")
+                                        exprs.append(e)
+                                        expect.append((dict(info, branch="dense"), np.concatenate([loc, cov.ravel()])))
+                                distinct.add((sname, tname, inc, kopt, nkind, kname))
+                            if len(res) == 2:   # C03: both solvers give the same conditional process
+                                for op, a, b in zip(("loc", "variance", "covariance"), res["direct"], res["quasisep"]):
+                                    ok, dv = close(b, a, 1e-8)
+                                    if not ok:
+                                        oracle_bad.append(dict(op="solver agreement: " + op, kernel=kname, test=tname, include_mean=inc,
+                                                               pred_kernel=kopt, pred_noise=nkind, expected=np.asarray(a).tolist(),
+                                                               observed=np.asarray(b).tolist(), x=x.tolist(), y=y.tolist()))
     model = coq_eval("c02" if not only_solver_agreement else "c03b", IMPORTS, exprs, defs=DEFS, shard=10)
     for ex, mv in zip(expect, model):
         info, g = ex[0], ex[1]
